@@ -5,20 +5,61 @@ ACCT = 'acmed/src/account.rs'
 UW = {'simd_bitmask': 17, 'swap_nonoverlapping': 8, 'memcmp': 33, 'sha::fold|openssl::sha': 40, 'sync_table': 4}
 B = 'contacts / key / binding fingerprints each equal or different (symbolic), every request may fail (symbolic)'
 A = 'register iff no URL or binding changed; one update per changed item, none otherwise; contacts update only when the signing key is the one the CA holds (key roll-over first); fingerprints on record equal the configuration after success; Err iff a request failed'
+
+import re
+def _m(kind, extra):
+    return ('\tlet e = crate::verif_env::env();\n'
+            '\tlet _ = &endpoint;\n'
+            '\tkani::assume(e.acc_ev_n < 4);\n'
+            '\te.acc_ev[e.acc_ev_n] = %d;\n'
+            '\te.acc_ev_key_ok[e.acc_ev_n] = account.current_key.key.inner_key.kid == e.ca_key_kid;\n'
+            '\te.acc_ev_n += 1;\n'
+            '\tif kani::any() { e.acc_failed = true; return Err("request failed".into()); }\n'
+            + extra + '\tOk(())') % kind
+S_REGISTER = {'file': APA, 'fn': 'register_account', 'body': _m(1, '\te.ca_key_kid = account.current_key.key.inner_key.kid;\n')}
+S_CONTACTS = {'file': APA, 'fn': 'update_account_contacts', 'body': _m(2, '')}
+S_KEY = {'file': APA, 'fn': 'update_account_key', 'body': _m(3, '\te.ca_key_kid = account.current_key.key.inner_key.kid;\n')}
+
+
+def gen_sync(d, cache, cut):
+    """Source slice: the update statements of Account::synchronize after the change flags."""
+    p = os.path.join(d, ACCT)
+    src = cache[p]
+    real = src.split('#[cfg(kani)]')[0]
+    sl = cut.slice_between(real, 'let key_changed = ')
+    sl, k = re.subn(r'\b(update_account_contacts|update_account_key|register_account)\(endpoint, self\)\s*\.await\?', r'block_on(\1(endpoint, acc))?', sl)
+    if k != 2 or 'self' in sl or '.await' in sl:
+        raise cut.EncodeError('slice: synchronize update statements have an unexpected shape (%d calls)' % k)
+    cache[p] = src.replace('VERIF_SYNC_SLICE', sl)
+
+
+SLICE_UNIT = {
+    'name': 'sync_slice', 'shims': ['openssl'], 'edits': [S_REGISTER, S_CONTACTS, S_KEY], 'gen': gen_sync,
+    'assumptions': ['source slice: the statements of Account::synchronize that follow `let key_changed = ...` (the two conditional updates) are pasted verbatim from /repo into sync_slice(); `self` is the parameter acc, each `f(endpoint, self).await?` becomes `block_on(f(endpoint, acc))?`',
+                    'the three request functions are cut to contract models: record the event and whether the key that signs it (account.current_key) is the key the CA holds; fail on the solver\'s choice; a successful key roll-over / registration makes the CA hold the current key',
+                    'the change flags are symbolic booleans (fingerprint computation = hash_contacts / hash_key is outside this unit)'],
+    'harness_files': {ACCT: ['harness/account.rs', 'harness/account_slice.rs']},
+    'harnesses': [
+        {'name': 'c11_slice_witness', 'file': ACCT, 'kind': 'witness', 'timeout': 900, 'unwindset': UW, 'bounds': 'both items changed', 'asserts': 'reachability of success with two requests and of failure'},
+        {'name': 'c11_slice_update_order', 'file': ACCT, 'timeout': 1500, 'unwindset': dict(UW, c11_slice_update_order=5), 'bounds': 'contacts changed / key changed: all 4 patterns; every request may fail (symbolic); account URL on record, binding unchanged',
+         'asserts': 'no registration; one update per changed item; a contacts update is only ever signed by the key the CA holds (key roll-over first); Ok iff no request failed; after Ok the CA holds the current key'},
+    ],
+}
 SPEC = {
     'id': 'C11',
     'outside': 'the request bodies themselves (JWS construction: C04), bincode persistence and truncation of the account file, restarts as processes, histories longer than one synchronize step (covered inductively from an arbitrary recorded state), more than one endpoint per account in one step',
     'assumptions': ['acme_proto::account::{register_account, update_account_contacts, update_account_key} cut to contract models (record event + signing-key check, fail on the solver\'s choice, update fingerprints through the real setters)',
                     'openssl model: keys are identities; SHA-256 is a structural fold', 'std::hash::RandomState::new and alloc::fmt::format stubbed'],
     'units': [
+        SLICE_UNIT,
         {
             'name': 'sync', 'shims': ['openssl'], 'edits': [REGISTER_CUT, CONTACTS_CUT, KEY_CUT],
             'harness_files': {ACCT: 'harness/account.rs'},
             'harnesses': [
                 {'name': 'dbg_c11_b', 'file': ACCT, 'tiers': ['dbg'], 'timeout': 900, 'unwindset': UW},
-                {'name': 'c11_sync_no_url', 'file': ACCT, 'timeout': 1800, 'unwindset': UW, 'bounds': 'no account URL on record; ' + B, 'asserts': A},
-                {'name': 'c11_sync_url_no_binding', 'file': ACCT, 'timeout': 1800, 'unwindset': UW, 'bounds': 'account URL on record, no external binding; ' + B, 'asserts': A},
-                {'name': 'c11_sync_url_binding', 'file': ACCT, 'timeout': 1800, 'unwindset': UW, 'bounds': 'account URL on record, external binding configured; ' + B, 'asserts': A},
+                {'name': 'c11_sync_no_url', 'file': ACCT, 'tiers': ['dbg'], 'timeout': 1800, 'unwindset': UW, 'bounds': 'no account URL on record; ' + B, 'asserts': A},
+                {'name': 'c11_sync_url_no_binding', 'file': ACCT, 'tiers': ['dbg'], 'timeout': 1800, 'unwindset': UW, 'bounds': 'account URL on record, no external binding; ' + B, 'asserts': A},
+                {'name': 'c11_sync_url_binding', 'file': ACCT, 'tiers': ['dbg'], 'timeout': 1800, 'unwindset': UW, 'bounds': 'account URL on record, external binding configured; ' + B, 'asserts': A},
             ],
         },
     ],
